@@ -572,7 +572,7 @@ def suite_conc(pid, tier, seed):
     R, M = run.by_case(r["real"]), run.by_case(r["model"])
     # model-free exploration of the same programs on the real library: schedules the (correct) model
     # would never choose, e.g. a thread entering a critical section the model considers locked
-    rounds = 12 if tier == "quick" else 60
+    rounds = 18 if tier == "quick" else 90
     free_cases = gen.conc_corpus() * 3 + gen.conc_fault_corpus() * 2 + [c for c in cases[len(corpus)::nsched]]
     free_cases = [c.replace("\n", f"_f{i}\n", 1) for i, c in enumerate(free_cases)]
     def go_free():
@@ -620,6 +620,30 @@ def suite_conc(pid, tier, seed):
         nsteps += sum(1 for l in rl if l.startswith("S "))
         distinct.add("cc:" + hashlib.sha1("\n".join(" ".join(l.split()[2:6]) for l in rl if l.startswith("S ")).encode()).hexdigest()[:16])
     failures += free_fail
+    # a worker that misses its time-out on a loaded machine is not a deadlock: every `stuck` report of a
+    # model-driven case is confirmed by running that case again, alone; a real deadlock under a forced
+    # schedule reproduces, a scheduling hiccup does not
+    stuck = [f for f in failures if f["tag"] == "stuck" and f.get("mode") == "conc"]
+    if stuck:
+        bycase = {c.split("\n", 1)[0][5:]: c for c in cases}
+        d = run.scratch_dir()
+        try:
+            confirmed = []
+            for f in stuck[:6]:
+                c = bycase.get(f["where"])
+                if c is None:
+                    confirmed.append(f); continue
+                cf = os.path.join(d, "confirm.case"); open(cf, "w").write(c)
+                mf = os.path.join(d, "confirm.model")
+                m = subprocess.run([run.DRIVER, "--oracle", f"{run.HX} hashd", "--conc", cf], stdout=subprocess.PIPE, stderr=subprocess.DEVNULL, text=True, timeout=600).stdout
+                open(mf, "w").write(m)
+                r = subprocess.run([run.HX, "conc", cf, mf], stdout=subprocess.PIPE, stderr=subprocess.DEVNULL, text=True, timeout=600, env=dict(run.ENV, HX_TMP=d)).stdout
+                if any(t == "stuck" for t, _ in oracle.conc_oracle(c, run.by_case(r).get(f["where"], []))):
+                    confirmed.append(f)
+            drop = [f for f in stuck[:6] if f not in confirmed]
+            failures = [f for f in failures if f not in drop]
+        finally:
+            import shutil; shutil.rmtree(d, ignore_errors=True)
     return dict(evaluations=len(cases) + nfree, distinct=distinct, samples=[dict(suite="conc", case=cases[0].splitlines())],
                 diffs=diffs[:5], failures=failures, traces=len(cases), stats=dict(programs=nprog, model_schedules=len(cases), free_schedules=nfree, steps=nsteps, diffs=len(diffs)))
 
